@@ -99,6 +99,15 @@ CLAIMS = {
              "no overlap, the argument of pass_exception callbacks, that raising callbacks never stop the rest, the single exception group, "
              "closed afterwards and the block's own outcome.",
         design_ref="DESIGN.md §5 C01, Appendix A.2", note="Trusted: TLC, the gate-driven driver with exact quiescence and virtual time. Cancellation exceptions are exempt from the grouped clause (backends differ); quick runs each program on one backend, alternating."),
+    "C12": dict(
+        technique="TLA+ spec Cur.tla composed with the monitor P_C12: TLC explores every configuration of the bounded model and proves the "
+                  "design satisfies the monitor; every transition (with a path to it) is executed with one real task per specification task and "
+                  "the recorded trace is evaluated by TLC against the monitor (Trace_C12)",
+        text="Model checking of per-task context stacks (<=3 tasks, nesting <=2-3, implicit and explicit parents, blocks left by return, "
+             "exception, cancellation or a raising teardown, tasks spawned from inside blocks, start_component probes); each of the ~4k "
+             "transitions of the bounded graph is driven through real tasks on asyncio and trio, current_context() of every task is sampled "
+             "after every step and compared by the monitor; Context.parent of every new context is checked against the creator's current context.",
+        design_ref="DESIGN.md §5 C12", note="Trusted: TLC, the worker-task driver (commands over memory streams, exact quiescence). How earlier blocks on a path ended is randomised."),
 }
 
 PENDING_REASON = "check not built yet in this build session; planned (DESIGN.md §5)"
